@@ -151,6 +151,13 @@ Definition unused_check (v : tree) (suffixes : list path) : bool :=
   | _ => false
   end.
 
+(* the Go code collects the suffixes in a map keyed by the joined suffix: duplicates collapse *)
+Fixpoint dedup_paths (l : list path) : list path :=
+  match l with
+  | [] => []
+  | x :: r => if existsb (path_eqb x) r then dedup_paths r else x :: dedup_paths r
+  end.
+
 (* the list of databag writes of View.Set, or the error *)
 Definition set_writes (rules : list rule) (req : path) (v : tree) : rres * list (path * tree) :=
   match matches writeable rules req with
@@ -163,7 +170,7 @@ Definition set_writes (rules : list rule) (req : path) (v : tree) : rres * list 
           let sorted := sort_by fst lms in
           let vals := map (fun m => (fst m, value_at (snd m) v)) sorted in
           if existsb (fun pv => match snd pv with None => true | Some _ => false end) vals then (RBadRequest, [])
-          else if negb (unused_check v (map snd lms)) then (RBadRequest, [])
+          else if negb (unused_check v (dedup_paths (map snd lms))) then (RBadRequest, [])
           else (ROk, map (fun pv => (fst pv, match snd pv with Some x => x | None => Null end)) vals)
       end
   end.
@@ -176,6 +183,161 @@ Definition unset_paths (rules : list rule) (req : path) : rres * list path :=
           | None => (RUnsupported, [])
           | Some lms => (ROk, map fst lms)
           end
+  end.
+
+(* ------------------------------------------------------------------ unfilled placeholders in the unmatched suffix
+   (a request shorter than a rule with a {placeholder} further right) *)
+(* rendering order of parts: the text {x} sorts after every single-letter key *)
+Definition part_key (p : part) : key := match p with Lit k => k | Ph n => 1000 + n end.
+Definition parts_key (ps : list part) : path := map part_key ps.
+
+(* replaceIn(path, "{n}", cand) *)
+Definition replace_in (sp : list part) (n cand : key) : list part :=
+  map (fun p => match p with Ph m => if m =? n then Lit cand else Ph m | Lit k => Lit k end) sp.
+
+(* getValuesThroughPathsImpl: literal suffix parts walk into the value; a placeholder part takes every key of the map
+   found there as a candidate, fills it into the storage path and goes on below that key. None = error. *)
+Fixpoint expand (sf : list part) (sp : list part) (v : tree) : option (list (list part * tree)) :=
+  match sf with
+  | [] => Some [(sp, v)]
+  | Lit k :: r => match v with
+                  | Obj l => match lookup k l with Some c => expand r sp c | None => None end
+                  | _ => None
+                  end
+  | Ph n :: r => match v with
+                 | Obj l => fold_left (fun acc kc => match acc, expand r (replace_in sp n (fst kc)) (snd kc) with
+                                                     | Some a, Some e => Some (a ++ e)
+                                                     | _, _ => None
+                                                     end) l (Some [])
+                 | _ => None
+                 end
+  end.
+
+Definition denull (t : tree) : option tree := match t with Null => None | _ => Some t end.
+
+(* prunePathInValue with placeholders. tol = true is NOT what the code does: a missing literal key is then taken as
+   already pruned; it is used to decide whether data is left over whatever the pruning order *)
+Fixpoint prune_g (tol : bool) (sf : list part) (v : option tree) : option (option tree) :=
+  match sf with
+  | [] => Some None
+  | pt :: r =>
+      match v with
+      | None => Some None
+      | Some (Obj l) =>
+          match pt with
+          | Ph _ =>
+              match fold_left (fun acc kc => match acc, prune_g tol r (denull (snd kc)) with
+                                             | Some a, Some (Some c') => Some (a ++ [(fst kc, c')])
+                                             | Some a, Some None => Some a
+                                             | _, _ => None
+                                             end) l (Some []) with
+              | None => None
+              | Some [] => Some None
+              | Some l' => Some (Some (Obj l'))
+              end
+          | Lit k =>
+              match lookup k l with
+              | None => if tol then Some (Some (Obj l)) else None
+              | Some c =>
+                  match prune_g tol r (denull c) with
+                  | None => None
+                  | Some nv =>
+                      let l' := match nv with None => aremove k l | Some c' => aset k c' l end in
+                      Some (match l' with [] => None | _ => Some (Obj l') end)
+                  end
+              end
+          end
+      | Some _ => None
+      end
+  end.
+
+Definition prune_all (tol : bool) (v : tree) (sfs : list (list part)) : option (option tree) :=
+  fold_left (fun acc sf => match acc with Some cur => prune_g tol sf cur | None => None end) sfs (Some (Some v)).
+
+Definition part_eqb (a b : part) : bool :=
+  match a, b with Lit x, Lit y => x =? y | Ph x, Ph y => x =? y | _, _ => false end.
+Fixpoint parts_eqb (a b : list part) : bool :=
+  match a, b with
+  | [], [] => true
+  | x :: a', y :: b' => part_eqb x y && parts_eqb a' b'
+  | _, _ => false
+  end.
+Fixpoint dedup_parts (l : list (list part)) : list (list part) :=
+  match l with
+  | [] => []
+  | x :: r => if existsb (parts_eqb x) r then dedup_parts r else x :: dedup_parts r
+  end.
+
+(* a is a prefix of b up to placeholders (a placeholder stands for any key) *)
+Fixpoint unif_prefix (a b : list part) : bool :=
+  match a, b with
+  | [], _ => true
+  | x :: a', y :: b' => (match x, y with Lit k, Lit k' => k =? k' | _, _ => true end) && unif_prefix a' b'
+  | _ :: _, [] => false
+  end.
+
+(* two different non-empty suffixes one of which is a prefix of the other up to placeholders: for these the outcome of
+   checkForUnusedBranches depends on the iteration order of a Go map *)
+Definition order_dependent (ss : list (list part)) : bool :=
+  existsb (fun a => match a with
+                    | [] => false
+                    | _ :: _ => existsb (fun b => negb (parts_eqb a b) && unif_prefix a b) ss
+                    end) ss.
+
+Fixpoint lits_all (ws : list (list part * tree)) : option (list (path * tree)) :=
+  match ws with
+  | [] => Some []
+  | (sp, x) :: r => match lits sp, lits_all r with
+                    | Some p, Some l => Some ((p, x) :: l)
+                    | _, _ => None
+                    end
+  end.
+
+(* View.Set in general: a determined outcome, or (order-dependent suffixes) either the writes or BadRequest - and
+   BadRequest for certain when data is left over whatever the order *)
+Inductive sclass :=
+| SDet (r : rres) (ws : list (path * tree))
+| SEither (must_reject : bool) (ws : list (path * tree)).
+
+Definition set_class (rules : list rule) (req : path) (v : tree) : sclass :=
+  match matches writeable rules req with
+  | [] => SDet RNotFound []
+  | ms =>
+      let sorted := sort_by (fun m : rmatch => parts_key (fst m)) ms in
+      match fold_left (fun acc m => match acc, expand (snd m) (fst m) v with
+                                    | Some a, Some e => Some (a ++ e)
+                                    | _, _ => None
+                                    end) sorted (Some []) with
+      | None => SDet RBadRequest []
+      | Some ews =>
+          (* a suffix placeholder that is already filled in the storage path (same name used twice in the request
+             pattern) sends every candidate to the same storage path: which one wins depends on map order *)
+          if existsb (fun m => match expand (snd m) (fst m) v with
+                               | Some e => negb (Nat.eqb (length (dedup_parts (map fst e))) (length e))
+                               | None => false
+                               end) sorted
+          then SDet RUnsupported [] else
+          match lits_all ews with
+          | None => SDet RUnsupported []
+          | Some ws =>
+              let sfs := dedup_parts (map snd ms) in
+              if order_dependent sfs then
+                SEither (match prune_all true v sfs with Some None => false | _ => true end) ws
+              else match prune_all false v sfs with
+                   | Some None => SDet ROk ws
+                   | _ => SDet RBadRequest []
+                   end
+          end
+      end
+  end.
+
+(* what the state machine uses: the literal definition where it applies, the general one otherwise; an order-dependent
+   Set has no determined outcome (RUnsupported here; the comparison follows the implementation's choice) *)
+Definition set_writes_g (rules : list rule) (req : path) (v : tree) : rres * list (path * tree) :=
+  let general := match set_class rules req v with SDet r ws => (r, ws) | SEither _ _ => (RUnsupported, []) end in
+  match literal_matches (matches writeable rules req) with
+  | Some lms => if overlapping (map snd lms) then general else set_writes rules req v
+  | None => general
   end.
 
 (* ------------------------------------------------------------------ JSONDataBag on literal paths *)
@@ -295,6 +457,117 @@ Definition view_get (rules : list rule) (get : path -> bres) (req : path) : vres
       end
   end.
 
+(* ---- View.Get with unfilled placeholders in the storage path / unmatched suffix *)
+(* JSONDataBag.get with {placeholder} sub-keys: a placeholder matches every key of the level; at the end of the path it
+   returns the whole level (even an empty one); in the middle it collects, per key, what the rest of the path finds
+   below it, skipping keys whose value is not a map or under which nothing (or an error) is found; nothing at all is
+   a path error *)
+Fixpoint bag_get_g (ps : list part) (l : bag) : bres :=
+  match ps with
+  | [] => BErr
+  | Lit k :: r =>
+      match lookup k l with
+      | None => BPathErr
+      | Some t => match r with
+                  | [] => BOk t
+                  | _ :: _ => match t with
+                              | Obj l' => bag_get_g r l'
+                              | Null => bag_get_g r []
+                              | Atom _ => BErr
+                              end
+                  end
+      end
+  | Ph _ :: r =>
+      match r with
+      | [] => BOk (Obj l)
+      | _ :: _ =>
+          match fold_left (fun acc kc => match snd kc with
+                                         | Obj l' => match bag_get_g r l' with
+                                                     | BOk res => acc ++ [(fst kc, res)]
+                                                     | _ => acc
+                                                     end
+                                         | _ => acc
+                                         end) l [] with
+          | [] => BPathErr
+          | res => BOk (Obj res)
+          end
+      end
+  end.
+
+(* namespaceResult *)
+Fixpoint namespace (sf : list part) (res : tree) : option tree :=
+  match sf with
+  | [] => Some res
+  | Lit k :: r => match namespace r res with Some x => Some (Obj [(k, x)]) | None => None end
+  | Ph _ :: r =>
+      match res with
+      | Obj l => match fold_left (fun acc kc => match acc, namespace r (snd kc) with
+                                                | Some a, Some x => Some (a ++ [(fst kc, x)])
+                                                | _, _ => None
+                                                end) l (Some []) with
+                 | Some l' => Some (Obj l')
+                 | None => None
+                 end
+      | _ => None
+      end
+  end.
+
+Definition view_get_ph (rules : list rule) (get : list part -> bres) (req : path) : vres :=
+  match matches readable rules req with
+  | [] => VErr RNotFound
+  | ms =>
+      let sorted := sort_by (fun m : rmatch => parts_key (snd m)) ms in
+      let step (acc : option (option tree)) (m : rmatch) : option (option tree) :=
+        match acc with
+        | None => None
+        | Some merged =>
+            match get (fst m) with
+            | BPathErr => Some merged
+            | BErr => None
+            | BOk val => match namespace (snd m) val with
+                         | None => None
+                         | Some val' =>
+                             match merged with
+                             | None => Some (Some val')
+                             | Some old => match merge val' old with Some x => Some (Some x) | None => None end
+                             end
+                         end
+            end
+        end in
+      match fold_left step sorted (Some None) with
+      | None => VErr RError
+      | Some None => VErr RNotFound
+      | Some (Some t) => VOk t
+      end
+  end.
+
+Definition tx_get_g (t : tx) (ps : list part) : bres :=
+  match apply_deltas (tx_pristine t) (tx_deltas t) with Some b => bag_get_g ps b | None => BErr end.
+
+(* what the state machine uses: the literal definition where it applies, the general one otherwise *)
+Definition view_get_g (rules : list rule) (t : tx) (req : path) : vres :=
+  match literal_matches (matches readable rules req) with
+  | Some _ => view_get rules (tx_get t) req
+  | None => view_get_ph rules (tx_get_g t) req
+  end.
+
+(* View.Set on a BARE databag (no transaction): the writes go straight into the bag, each followed by a schema check;
+   a failure leaves the earlier writes behind *)
+Fixpoint bare_writes (valid : tree -> bool) (ws : list (path * tree)) (b : bag) : bool * bag :=
+  match ws with
+  | [] => (true, b)
+  | d :: r => match apply_delta b d with
+              | None => (false, b)
+              | Some b' => if valid (Obj b') then bare_writes valid r b' else (false, b')
+              end
+  end.
+
+Definition bare_set (valid : tree -> bool) (rules : list rule) (b : bag) (req : path) (v : tree) : rres * bag :=
+  match set_writes rules req v with
+  | (ROk, ws) => let (ok, b') := bare_writes valid ws b in ((if ok then ROk else RError), b')
+  | (e, _) => (e, b)
+  end.
+
 (* ------------------------------------------------------------------ several transactions on one committed databag *)
 Section Schema.
 Variable valid : tree -> bool.                    (* registry.Schema.Validate on the whole databag *)
@@ -313,7 +586,8 @@ Inductive op :=
 | OSet (i : nat) (req : path) (v : tree)
 | OUnset (i : nat) (req : path)
 | OGet (i : nat) (req : path)
-| OCommit (i : nat).
+| OCommit (i : nat)
+| OBare (req : path) (v : tree).            (* View.Set on a separate bare databag; not part of the transactional state *)
 
 Inductive obs :=
 | BRes (r : rres)
@@ -336,7 +610,7 @@ Definition step (rules : list rule) (st : state) (o : op) : state * obs :=
   | OSet i req v =>
       match nth_error (st_txs st) i with
       | None => (st, BSkip)
-      | Some t => match set_writes rules req v with
+      | Some t => match set_writes_g rules req v with
                   | (ROk, ws) => (mkState (st_bag st) (set_nth i (add_deltas t ws) (st_txs st)), BRes ROk)
                   | (e, _) => (st, BRes e)
                   end
@@ -352,7 +626,7 @@ Definition step (rules : list rule) (st : state) (o : op) : state * obs :=
   | OGet i req =>
       match nth_error (st_txs st) i with
       | None => (st, BSkip)
-      | Some t => (st, BVal (view_get rules (tx_get t) req))
+      | Some t => (st, BVal (view_get_g rules t req))
       end
   | OCommit i =>
       match nth_error (st_txs st) i with
@@ -362,6 +636,7 @@ Definition step (rules : list rule) (st : state) (o : op) : state * obs :=
                   | None => (st, BBag false (st_bag st))
                   end
       end
+  | OBare _ _ => (st, BSkip)
   end.
 
 Fixpoint run (rules : list rule) (st : state) (ops : list op) : list obs :=
@@ -421,22 +696,55 @@ Definition obs_eqb (a b : obs) : bool :=
 Inductive case :=
 | CHist (rules : list rule) (steps : list (op * obs)).
 
-(* the model's run, with the observation of every unsupported step taken from the implementation: after an
-   unsupported Set/Unset the model cannot follow the transaction any more, so the comparison stops there *)
-Fixpoint compare (rules : list rule) (st : state) (steps : list (op * obs)) : bool :=
+(* the model's run against the observations. Steps the model does not cover are skipped (after an unsupported Unset the
+   model cannot follow the transaction any more, so the comparison stops there). A Set with order-dependent suffixes is
+   followed along the implementation's own choice: accepted (then exactly the model's writes are recorded) or
+   BadRequest (then nothing is recorded) - BadRequest is required when data is left over whatever the order. The bare
+   databag of OBare operations is threaded separately. *)
+Definition is_either (rules : list rule) (req : path) (v : tree) : option (bool * list (path * tree)) :=
+  let cls := match set_class rules req v with SEither m ws => Some (m, ws) | SDet _ _ => None end in
+  match literal_matches (matches writeable rules req) with
+  | Some lms => if overlapping (map snd lms) then cls else None
+  | None => cls
+  end.
+
+Fixpoint compare (rules : list rule) (st : state) (bare : bag) (steps : list (op * obs)) : bool :=
   match steps with
   | [] => true
   | (o, seen) :: r =>
-      let (st', b) := step drv_valid rules st o in
-      match b with
-      | BRes RUnsupported => true
-      | BVal (VErr RUnsupported) => compare rules st' r
-      | _ => obs_eqb b seen && compare rules st' r
+      match o with
+      | OBare req v =>
+          match bare_set drv_valid rules bare req v with
+          | (RUnsupported, _) => true
+          | (res, b') => obs_eqb (BBag (rres_eqb res ROk) b') seen && compare rules st b' r
+          end
+      | _ =>
+          let normal :=
+            let (st', b) := step drv_valid rules st o in
+            match b with
+            | BRes RUnsupported => true
+            | BVal (VErr RUnsupported) => compare rules st' bare r
+            | _ => obs_eqb b seen && compare rules st' bare r
+            end in
+          match o with
+          | OSet i req v =>
+              match nth_error (st_txs st) i, is_either rules req v with
+              | Some t, Some (must, ws) =>
+                  match seen with
+                  | BRes ROk => negb must &&
+                                compare rules (mkState (st_bag st) (set_nth i (add_deltas t ws) (st_txs st))) bare r
+                  | BRes RBadRequest => compare rules st bare r
+                  | _ => false
+                  end
+              | _, _ => normal
+              end
+          | _ => normal
+          end
       end
   end.
 
 Definition mismatch (c : case) : bool :=
-  match c with CHist rules steps => negb (compare rules (mkState [] []) steps) end.
+  match c with CHist rules steps => negb (compare rules (mkState [] []) [] steps) end.
 
 (* the property on the implementation's observed behaviour:
    - a Get that returned a value although no readable rule matches the request, or a Set/Unset that was accepted
